@@ -8,3 +8,8 @@ chk("C01", "exploration",
     "Prometheus loader = vendored rulefmt.Parse(content,false) with UTF-8 name validation, not a running server; generator reach",
     "differential oracle (external acceptor) over executions of the pint binary",
     "DESIGN.md §3 C01")
+chk("C05", "exploration",
+    "every pint lint/ci child's exit status is compared with the severities in the JSON report the same child wrote, across all --fail-on x --min-severity x --show-duplicates settings and stratified severity mixes (info-only, warning-max, bug-max, same text at two severities). Sampled over generated bases.",
+    "a run counts as completed iff it wrote --json; the JSON reporter lists every report (no filtering) before the status is decided",
+    "runtime monitor: process exit status vs the process's own JSON report; relational check across display flags",
+    "DESIGN.md §3 C05")
